@@ -129,9 +129,30 @@ static void setup_dev(Runner &r, const Tier &t) {
         if (!why.empty()) { JObj o; o.kv("font", d.font).kv("face_options", d.opts).kv("table", tagstr(d.tag)).kv("answer_kind", d.kind).kv("release_fn", !d.no_release).kv("kind", "env_deviation").kv("why", why); report_fail(i, o); }
     };
 }
+
+// ---- fonts whose tables are all plausible but in which ONE glyph is unreadable: preloading face creation fails late (after the glyph loader has borrowed its tables),
+// lazily loading faces load and meet the bad glyph while shaping
+struct RJ { std::string font; unsigned opts; bool no_release; }; static std::vector<RJ> g_rj;
+static void setup_reject(Runner &r, const Tier &) {
+    g_rj.clear(); for (const char *f : { "s_full_badglyph", "s_full_badlast" }) for (unsigned o = 0; o < 8; ++o) for (int nr = 0; nr < 2; ++nr) g_rj.push_back({ gen_dir() + "/" + f + ".ttf", o, nr == 1 });
+    r.ncases = g_rj.size(); r.case_alarm_s = 120;
+    r.describe = [](uint64_t i) { JObj o; o.kv("font", g_rj[i].font).kv("face_options", g_rj[i].opts).kv("release_fn", !g_rj[i].no_release).kv("what", "gr_make_face_with_ops (may fail), shape 4 texts that reach the unreadable glyph, queries, destroy"); return o; };
+    r.body = [](uint64_t ci, ShardCtl &ctl) { const RJ &c = g_rj[ci]; TableSet ts; if (!ts.from_file(c.font)) return; size_t bal0 = allocated_bytes(); const char *why = nullptr;
+        { MemFace mf; mf.ts = &ts; mf.no_release_fn = c.no_release; std::vector<uint32_t>().swap(mf.log_get); gr_face *f = mf.make(c.opts); ctl.counters[0] = ctl.counters[0] + 1; unsigned long gets = mf.n_get;
+          if (f) { ctl.counters[1] = ctl.counters[1] + 1; for (const char *t : { "e", "ae f", "fe", "abcdef" }) for (int d = 0; d < 2; ++d) { gr_segment *sg = gr_make_seg(nullptr, f, 0, nullptr, gr_utf8, t, strlen(t), d); if (sg) gr_seg_destroy(sg); }
+              if ((c.opts & 6) == 6 && mf.n_get != gets) why = "get_table called after gr_make_face with preloadAll";
+              gr_face_destroy(f); }
+          if (!why && mf.bad_release) why = "release_table called with a pointer that is not outstanding";
+          if (!why && !c.no_release && !mf.outstanding.empty()) why = f ? "tables still borrowed after gr_face_destroy" : "tables still borrowed after a failed gr_make_face";
+          mf.drop_outstanding(); std::vector<uint32_t>().swap(mf.log_get); }
+        size_t bal1 = allocated_bytes(); if (!why && bal1 != bal0) why = "allocation imbalance after everything was destroyed";
+        if (why) { JObj o; o.kv("font", c.font).kv("face_options", c.opts).kv("release_fn", !c.no_release).kv("kind", "borrow_discipline").kv("why", why); report_fail(ci, o); }
+        ctl.cls(hash_str(c.font) + c.opts * 2 + c.no_release); };
+}
 int main(int argc, char **argv) {
     std::vector<Sub> subs;
     { Sub s; s.name = "history_bfs"; s.setup = setup_bfs; s.budget_quick = 140; s.budget_thorough = 1100; s.counter_names = { "states", "transitions" }; s.extra = extra_bfs; subs.push_back(s); }
     { Sub s; s.name = "env_deviation"; s.setup = setup_dev; s.budget_quick = 60; s.budget_thorough = 300; s.counter_names = { "loads", "rejected" }; subs.push_back(s); }
+    { Sub s; s.name = "rejecting_fonts"; s.setup = setup_reject; s.budget_quick = 60; s.budget_thorough = 120; s.counter_names = { "face_creations", "loaded" }; subs.push_back(s); }
     return check_main(argc, argv, "C16", subs);
 }
